@@ -33,6 +33,10 @@ type TextRenderer struct {
 	Round     int32
 }
 
+// maxDigits bounds the number of fractional digits: every cell is rendered with
+// that many digits, so an absurd value makes the command run out of memory.
+const maxDigits = 1000
+
 var (
 	green = color.New(color.FgGreen)
 	red   = color.New(color.FgRed)
@@ -40,6 +44,9 @@ var (
 
 // Render renders this table to a string.
 func (r *TextRenderer) Render(t *Table, w io.Writer) error {
+	if r.Round > maxDigits {
+		return fmt.Errorf("cannot round to %d digits (at most %d)", r.Round, maxDigits)
+	}
 	r.table = t
 	color.NoColor = !r.Color
 
